@@ -13,6 +13,7 @@ import OsmoVerif.Model.DrvGamm
 import OsmoVerif.Model.DrvCL
 import OsmoVerif.Model.DrvCLPool
 import OsmoVerif.Model.DrvCLFees
+import OsmoVerif.Model.DrvCLInc
 import OsmoVerif.Model.DrvSumTree
 import OsmoVerif.Model.DrvEpochs
 import OsmoVerif.Model.DrvAccum
@@ -28,7 +29,7 @@ structure St where
   router : Router.FeeCfg := Router.initRouter
   twap : Twap.DrvState := Twap.initTwap
   gamm : Gamm.State := Gamm.initGamm
-  clp : CLFees.Fees := CLFees.initCLFees
+  clp : CLInc.Full := CLInc.initCLInc
   sumtree : SumTree.Store := SumTree.initSumTree
   epochs : Epochs.State := Epochs.initEpochs
   accum : Accum.AccumState := Accum.initAccum
@@ -46,7 +47,7 @@ def step (st : St) (line : String) : St × String :=
     ({ st with sumtree := r.1 }, r.2)
   | "epochs" :: op :: args => let (e, o) := Epochs.stepEpochs st.epochs op args; ({ st with epochs := e }, o)
   | "accum" :: op :: args => let (a, o) := Accum.stepAccum st.accum op args; ({ st with accum := a }, o)
-  | "clp" :: op :: args => let (c, o) := CLFees.stepCLFees st.clp op args; ({ st with clp := c }, o)
+  | "clp" :: op :: args => let (c, o) := CLInc.stepCLInc st.clp op args; ({ st with clp := c }, o)
   | "auth" :: op :: args => let (a, o) := Auth.stepAuth st.auth op args; ({ st with auth := a }, o)
   | "lockup" :: op :: args => let (m, o) := Lockup.stepLockup st.lockup op args; ({ st with lockup := m }, o)
   | "gamm" :: op :: args => let (x, o) := Gamm.stepGamm st.gamm op args; ({ st with gamm := x }, o)
